@@ -472,6 +472,27 @@ example : (decodeA (.pair (.prim .bytes) (.pair (.prim .compact) .unit)) [0x08, 
     Ty.wf (.pair (.prim .bytes) (.pair (.prim .compact) .unit)) = true := by
   refine ⟨by decide, by decide, by decide⟩
 
+/-! ## no panic -/
+
+/-- **No panic**: every buffer the decoder indexes or hands to `binary.LittleEndian.UintN` was
+    filled by `io.ReadFull` to exactly the size it was made with, so `buf[byteLen-1]`
+    (`decodeBigInt`) and the fixed-size reads are always in range; the model is a total function
+    of (type, input).  (Panics of the reflect walk itself are observed by the harness only.) -/
+theorem C12_no_panic (k : Nat) (bs buf r : Bytes) (h : C11.readFull k bs = some (buf, r)) :
+    buf.length = k ∧ bs = buf ++ r ∧ (0 < k → buf.getLast?.isSome = true) := by
+  unfold C11.readFull at h
+  by_cases hl : bs.length < k
+  · simp [hl] at h
+  · simp only [hl, if_false, Option.some.injEq, Prod.mk.injEq] at h
+    obtain ⟨h1, h2⟩ := h
+    subst h1; subst h2
+    have hlen : (bs.take k).length = k := by simp; omega
+    refine ⟨hlen, by simp, fun hk => ?_⟩
+    cases hb : bs.take k with
+    | nil => rw [hb] at hlen; simp at hlen; omega
+    | cons x xs => simp
+
+
 /-! ## allocation -/
 
 /-- no byte string / string anywhere in the type -/
@@ -632,32 +653,251 @@ theorem C12_alloc_bounded_partial (t : Ty) (h : noBytes t = true) :
       · exact Nat.max_le.2 ⟨by omega, iht h.1 r⟩
       · exact ihr h.2 (tag :: r)
 
+
+/-! ### honest successes allocate no more than they read -/
+
+/-- a successful decode without zero fill allocated no buffer above `max 67 |input|`, and its
+    rest is no longer than the input -/
+def OkBound (res : Option (Val × Bytes)) (req : Nat) (zf : Bool) (bs : Bytes) : Prop :=
+  zf = false → ∀ v r, res = some (v, r) → req ≤ max 67 bs.length ∧ r.length ≤ bs.length
+
+def OkBoundL (res : Option (List Val × Bytes)) (req : Nat) (zf : Bool) (bs : Bytes) : Prop :=
+  zf = false → ∀ vs r, res = some (vs, r) → req ≤ max 67 bs.length ∧ r.length ≤ bs.length
+
+theorem decodeUintV_suffix (bs : Bytes) (n : Nat) (r : Bytes) (h : C11.decodeUintV bs = some (n, r)) :
+    r.length < bs.length := by
+  rw [C11.decodeUint_spec] at h
+  have hc := filt_some _ _ h
+  have hs := (compactDec_sound hc).2
+  have hne := compactEnc_ne_nil n
+  rw [hs, List.length_append]
+  have : 0 < (compactEnc n).length := List.length_pos_iff.2 hne
+  omega
+
+theorem decBytes_okBound (bs : Bytes) :
+    OkBound (C11.decBytes bs).res (C11.decBytes bs).req (C11.decBytes bs).zf bs := by
+  intro hz v r' h
+  have hq := decodeUintReq_le bs
+  unfold C11.decBytes at hz h ⊢
+  cases hu : C11.decodeUintV bs with
+  | none => simp [hu, C11.PRes.fail] at h
+  | some q =>
+    obtain ⟨len, r⟩ := q
+    have hs := decodeUintV_suffix bs len r hu
+    simp only [hu] at hz h ⊢
+    by_cases hbig : len > 4294967295
+    · simp [hbig, C11.PRes.fail] at h
+    · simp only [hbig, if_false] at hz h ⊢
+      by_cases h0 : len = 0
+      · simp only [h0, if_true, C11.PRes.ok, Option.some.injEq, Prod.mk.injEq] at h ⊢
+        obtain ⟨_, hr⟩ := h
+        subst hr
+        exact ⟨by omega, by omega⟩
+      · simp only [h0, if_false] at hz h ⊢
+        cases r with
+        | nil => simp [C11.PRes.fail] at h
+        | cons x xs =>
+          simp only [List.isEmpty_cons, Bool.false_eq_true, if_false, C11.PRes.ok,
+            decide_eq_false_iff_not, Option.some.injEq, Prod.mk.injEq] at hz h ⊢
+          obtain ⟨_, hr⟩ := h
+          subst hr
+          refine ⟨Nat.max_le.2 ⟨by omega, by omega⟩, ?_⟩
+          simp only [List.length_drop]; omega
+
+theorem readFull_suffix (k : Nat) (bs buf r : Bytes) (h : C11.readFull k bs = some (buf, r)) :
+    r.length ≤ bs.length := by
+  have := (C12_no_panic k bs buf r h).2.1
+  rw [this]; simp
+
+theorem prim_okBound (p : Prim) (bs : Bytes) :
+    OkBound (C11.decPA p bs).res (C11.decPA p bs).req (C11.decPA p bs).zf bs := by
+  by_cases hb : noBytes (.prim p) = true
+  · intro hz v r h
+    refine ⟨Nat.le_trans (prim_req_le p bs hb) (Nat.le_max_left _ _), ?_⟩
+    -- the rest is a suffix: via the canonical decoder
+    have ⟨h1, _⟩ := C11.decPA_spec p bs
+    rw [h1 hz] at h
+    have hs := goFilter_some p _ _ h
+    have := (Spec.snd.sndP p bs v r hs).2
+    rw [this]; simp
+  · cases p <;> simp [noBytes] at hb
+    · exact decBytes_okBound bs
+    · exact decBytes_okBound bs
+
+theorem decNA_okBound (f : Bytes → DRes) (h : ∀ bs, OkBound (f bs).res (f bs).req (f bs).zf bs) :
+    ∀ n bs, OkBoundL (decNA f n bs).res (decNA f n bs).req (decNA f n bs).zf bs := by
+  intro n
+  induction n with
+  | zero =>
+    intro bs _ vs r hr
+    simp only [decNA, Option.some.injEq, Prod.mk.injEq] at hr ⊢
+    obtain ⟨_, h2⟩ := hr
+    subst h2
+    exact ⟨by omega, Nat.le_refl _⟩
+  | succ n ih =>
+    intro bs hz vs r' hr
+    simp only [decNA] at hz hr ⊢
+    cases ho : (f bs).res with
+    | none => simp [ho] at hr
+    | some p =>
+      obtain ⟨v, r⟩ := p
+      simp only [ho, Bool.or_eq_false_iff] at hz hr ⊢
+      cases hl : (decNA f n r).res with
+      | none => simp [hl] at hr
+      | some q =>
+        obtain ⟨ws, r2⟩ := q
+        simp only [hl, Option.map_some, Option.some.injEq, Prod.mk.injEq] at hr
+        obtain ⟨_, hr2⟩ := hr
+        subst hr2
+        have ⟨a1, a2⟩ := h bs hz.1 v r ho
+        have ⟨b1, b2⟩ := ih r hz.2 ws r2 hl
+        exact ⟨Nat.max_le.2 ⟨a1, by omega⟩, by omega⟩
+
+/-- **Allocation of honest successes**: a decode that succeeds without a zero-filled read
+    allocated no read buffer larger than `max 67 |input|` (and its rest is a suffix). -/
+theorem C12_alloc_ok_bounded (t : Ty) :
+    ∀ bs, OkBound (decodeA t bs).res (decodeA t bs).req (decodeA t bs).zf bs := by
+  induction t with
+  | prim p => intro bs; exact prim_okBound p bs
+  | unit =>
+    intro bs _ v r h
+    simp only [decodeA, Option.some.injEq, Prod.mk.injEq] at h ⊢
+    obtain ⟨_, h2⟩ := h; subst h2
+    exact ⟨by omega, Nat.le_refl _⟩
+  | pair a b iha ihb =>
+    intro bs hz v r' hr
+    simp only [decodeA] at hz hr ⊢
+    cases ho : (decodeA a bs).res with
+    | none => simp [ho] at hr
+    | some p =>
+      obtain ⟨x, r⟩ := p
+      simp only [ho, Bool.or_eq_false_iff] at hz hr ⊢
+      cases hl : (decodeA b r).res with
+      | none => simp [hl] at hr
+      | some q =>
+        obtain ⟨y, r2⟩ := q
+        simp only [hl, Option.map_some, Option.some.injEq, Prod.mk.injEq] at hr
+        obtain ⟨_, hr2⟩ := hr
+        subst hr2
+        have ⟨a1, a2⟩ := iha bs hz.1 x r ho
+        have ⟨b1, b2⟩ := ihb r hz.2 y r2 hl
+        exact ⟨Nat.max_le.2 ⟨a1, by omega⟩, by omega⟩
+  | option t ih =>
+    intro bs hz v r' hr
+    cases bs with
+    | nil => simp [decodeA] at hr
+    | cons tag r =>
+      simp only [decodeA] at hz hr ⊢
+      by_cases h0 : tag = 0
+      · simp only [h0, if_true, Option.some.injEq, Prod.mk.injEq] at hr ⊢
+        obtain ⟨_, h2⟩ := hr; subst h2
+        simp only [List.length_cons]; exact ⟨by omega, by omega⟩
+      · by_cases h1 : tag = 1
+        · subst h1
+          have h10 : ¬ ((1:UInt8) = 0) := by decide
+          simp only [h10, if_false, if_true] at hz hr ⊢
+          cases hl : (decodeA t r).res with
+          | none => simp [hl] at hr
+          | some q =>
+            obtain ⟨y, r2⟩ := q
+            simp only [hl, Option.map_some, Option.some.injEq, Prod.mk.injEq] at hr
+            obtain ⟨_, hr2⟩ := hr
+            subst hr2
+            have ⟨b1, b2⟩ := ih r hz y r2 hl
+            simp only [List.length_cons]
+            exact ⟨Nat.max_le.2 ⟨by omega, by omega⟩, by omega⟩
+        · simp [h0, h1] at hr
+  | result a b iha ihb =>
+    intro bs hz v r' hr
+    cases bs with
+    | nil => simp [decodeA] at hr
+    | cons tag r =>
+      simp only [decodeA] at hz hr ⊢
+      by_cases h0 : tag = 0
+      · simp only [h0, if_true] at hz hr ⊢
+        cases hl : (decodeA a r).res with
+        | none => simp [hl] at hr
+        | some q =>
+          obtain ⟨y, r2⟩ := q
+          simp only [hl, Option.map_some, Option.some.injEq, Prod.mk.injEq] at hr
+          obtain ⟨_, hr2⟩ := hr
+          subst hr2
+          have ⟨b1, b2⟩ := iha r hz y r2 hl
+          simp only [List.length_cons]
+          exact ⟨Nat.max_le.2 ⟨by omega, by omega⟩, by omega⟩
+      · by_cases h1 : tag = 1
+        · subst h1
+          have h10 : ¬ ((1:UInt8) = 0) := by decide
+          simp only [h10, if_false, if_true] at hz hr ⊢
+          cases hl : (decodeA b r).res with
+          | none => simp [hl] at hr
+          | some q =>
+            obtain ⟨y, r2⟩ := q
+            simp only [hl, Option.map_some, Option.some.injEq, Prod.mk.injEq] at hr
+            obtain ⟨_, hr2⟩ := hr
+            subst hr2
+            have ⟨b1, b2⟩ := ihb r hz y r2 hl
+            simp only [List.length_cons]
+            exact ⟨Nat.max_le.2 ⟨by omega, by omega⟩, by omega⟩
+        · simp [h0, h1] at hr
+  | array n t ih =>
+    intro bs hz v r' hr
+    simp only [decodeA] at hz hr ⊢
+    cases hl : (decNA (decodeA t) n bs).res with
+    | none => simp [hl] at hr
+    | some q =>
+      obtain ⟨ws, r2⟩ := q
+      simp only [hl, Option.map_some, Option.some.injEq, Prod.mk.injEq] at hr
+      obtain ⟨_, hr2⟩ := hr
+      subst hr2
+      exact decNA_okBound (decodeA t) ih n bs hz ws r2 hl
+  | seq t ih =>
+    intro bs hz v r' hr
+    have hq := decodeUintReq_le bs
+    simp only [decodeA] at hz hr ⊢
+    cases hu : C11.decodeUintV bs with
+    | none => simp [hu] at hr
+    | some q0 =>
+      obtain ⟨n, r⟩ := q0
+      have hs := decodeUintV_suffix bs n r hu
+      simp only [hu] at hz hr ⊢
+      cases hl : (decNA (decodeA t) n r).res with
+      | none => simp [hl] at hr
+      | some q =>
+        obtain ⟨ws, r2⟩ := q
+        simp only [hl, Option.map_some, Option.some.injEq, Prod.mk.injEq] at hr
+        obtain ⟨_, hr2⟩ := hr
+        subst hr2
+        have ⟨b1, b2⟩ := decNA_okBound (decodeA t) ih n r hz ws r2 hl
+        exact ⟨Nat.max_le.2 ⟨by omega, by omega⟩, by omega⟩
+  | enumNil => intro bs _ v r h; simp [decodeA] at h
+  | enumCons i t rest iht ihr =>
+    intro bs hz v r' hr
+    cases bs with
+    | nil => simp [decodeA] at hr
+    | cons tag r =>
+      simp only [decodeA] at hz hr ⊢
+      by_cases ht : tag.toNat = i
+      · simp only [ht, if_true] at hz hr ⊢
+        cases hl : (decodeA t r).res with
+        | none => simp [hl] at hr
+        | some q =>
+          obtain ⟨y, r2⟩ := q
+          simp only [hl, Option.map_some, Option.some.injEq, Prod.mk.injEq] at hr
+          obtain ⟨_, hr2⟩ := hr
+          subst hr2
+          have ⟨b1, b2⟩ := iht r hz y r2 hl
+          simp only [List.length_cons]
+          exact ⟨Nat.max_le.2 ⟨by omega, by omega⟩, by omega⟩
+      · simp only [ht, if_false] at hz hr ⊢
+        exact ihr (tag :: r) hz v r' hr
+
 /-- the excluded region is real: the 4 input bytes `fe ff ff ff` declare a byte string of
     2^30-1 bytes; the decoder allocates all of it before it finds the input empty -/
 theorem C12_alloc_bounded_counterexample :
     (decodeA (.prim .bytes) [0xfe, 0xff, 0xff, 0xff]).req = 1073741823 ∧
     (decodeA (.prim .bytes) [0xfe, 0xff, 0xff, 0xff]).res.isNone = true := by
   refine ⟨by decide, by decide⟩
-
-/-! ## no panic -/
-
-/-- **No panic**: every buffer the decoder indexes or hands to `binary.LittleEndian.UintN` was
-    filled by `io.ReadFull` to exactly the size it was made with, so `buf[byteLen-1]`
-    (`decodeBigInt`) and the fixed-size reads are always in range; the model is a total function
-    of (type, input).  (Panics of the reflect walk itself are observed by the harness only.) -/
-theorem C12_no_panic (k : Nat) (bs buf r : Bytes) (h : C11.readFull k bs = some (buf, r)) :
-    buf.length = k ∧ bs = buf ++ r ∧ (0 < k → buf.getLast?.isSome = true) := by
-  unfold C11.readFull at h
-  by_cases hl : bs.length < k
-  · simp [hl] at h
-  · simp only [hl, if_false, Option.some.injEq, Prod.mk.injEq] at h
-    obtain ⟨h1, h2⟩ := h
-    subst h1; subst h2
-    have hlen : (bs.take k).length = k := by simp; omega
-    refine ⟨hlen, by simp, fun hk => ?_⟩
-    cases hb : bs.take k with
-    | nil => rw [hb] at hlen; simp at hlen; omega
-    | cons x xs => simp
 
 
 end Gossamer.C12
